@@ -144,6 +144,7 @@ def mk_ip_obj(it, version, value):
     f = {"_ip": SInt(value)}
     for p in ("is_loopback", "is_private", "is_global"):
         f[p] = SBool(ip_pred_t(p, version, value))
+    f["is_unspecified"] = SBool(value == 0)  # exact: 0.0.0.0 / :: are the all-zero addresses (RFC 1122 §3.2.1.3, RFC 4291 §2.5.2)
     if version == 6:
         mapped = (value / TWO32) == 0xFFFF
         f["ipv4_mapped"] = SUnion([(mapped, mk_ip_obj(it, 4, value % TWO32)), (z3.Not(mapped), NONE)])
@@ -230,10 +231,37 @@ def _structured_split(it, s, seps, keep_empty):
     return SList(tokens)
 
 
+def _structured_split_first(it, s, sep):
+    """[head, tail] of s.split(sep, 1) when the first piece of the concatenation s that can contain the 1-character sep is a literal
+    (all earlier symbolic pieces provably do not contain it); None otherwise"""
+    pieces = _flatten_concat(simp(s.t))
+    if len(pieces) < 2:
+        return None
+    T = type(s)
+    for k, p in enumerate(pieces):
+        if z3.is_string_value(p):
+            lit = str_value_to_pystr(p)
+            j = lit.find(sep)
+            if j < 0:
+                continue
+            head = _concat_terms(pieces[:k] + [z3.StringVal(lit[:j])])
+            tail = _concat_terms([z3.StringVal(lit[j + 1:])] + pieces[k + 1:])
+            return SList([T(simp(head)), T(simp(tail))])
+        if not _free_of(it, p, sep):
+            return None
+    return None
+
+
 def _split_x(it, s, *a, **k):
     c = s.concrete()
     if c is None:
         maxsplit = a[1].concrete() if len(a) > 1 else (k["maxsplit"].concrete() if "maxsplit" in k else -1)
+        if maxsplit == 1 and a and not isinstance(a[0], SNoneT):
+            sep = a[0].concrete()
+            if sep is not None and len(sep) == 1:
+                r = _structured_split_first(it, s, sep if isinstance(sep, str) else sep.decode("latin-1"))
+                if r is not None:
+                    return r
         if maxsplit == -1:
             if not a or isinstance(a[0], SNoneT):
                 r = _structured_split(it, s, WS_STR if isinstance(s, SStr) else WS_BYTES, keep_empty=False)
